@@ -122,6 +122,31 @@ static int zones(const ZI* const* reg, int n, int i0, int i1, long grid, int nco
         }
       }
     }
+    // non-monotonic histories on the same long-lived processors: years in descending order; in each year first an instant of
+    // the following March (the cache then holds the later year), then the first 14 hours (UTC) of every month start of the
+    // year, December first -- the hours in which the UTC date and the local date of a zone differ
+    for (int y = 2048; y >= 2000; y--) {
+      for (int v = 0; v < 2; v++) {
+        long mar = days_from_civil(y + 1, 3, 1) * 86400L + 43200;
+        ZonedDateTime zm = ZonedDateTime::forEpochSeconds((acetime_t) mar, tzs[v]);
+        nops++;
+        if (zm.isError() || (long) zm.toEpochSeconds() != mar) fail("ZonedDateTime round trip (descending history)", mar, i, v);
+        for (int m = 12; m >= 1; m--) {
+          long base = days_from_civil(y, m, 1) * 86400L;
+          for (long h = 0; h <= 14 * 3600; h += 1800) {
+            long t = base + h;
+            ZonedDateTime z = ZonedDateTime::forEpochSeconds((acetime_t) t, tzs[v]);
+            nops++;
+            if (z.isError()) { fail("zoned date-time of a supported instant is an error after a later year was served", t, i, v); continue; }
+            if ((long) z.toEpochSeconds() != t) fail("ZonedDateTime round trip after a later year was served", t, i, z.toEpochSeconds());
+          }
+          if (m == 12 || m == 1) {     // back to the later year in between
+            ZonedDateTime zb = ZonedDateTime::forEpochSeconds((acetime_t) mar, tzs[v]);
+            if (zb.isError()) fail("zoned date-time is an error (descending history)", mar, i, v);
+          }
+        }
+      }
+    }
   }
   printf("{\"done\":1,\"nops\":%ld,\"nfail\":%ld}\n", nops, nfail);
   return 0;
